@@ -115,6 +115,16 @@ def run(rep, tier):
     rep.ob("R14.1", "exception-shape|api::collection::open", bool(exc) and inside and not outside,
            "the cold open (open_collection, which may flush recovery state) must run inside the closure handed to tokio::spawn, not inline in the cancellable handler", op.file + ":%d" % op.line)
     eff = prog.reaching(is_eff, stop=lambda n, f: n in exc)
+    # the exception moves the cold open out of the cancellable future (a durability matter); it does not make it a read.  The
+    # detached task is started by Read-labelled methods, and what it runs must then persist nothing.
+    eff_all = prog.reaching(is_eff)
+    writes_in_task = sorted({anda.node_name(n, prog.fns.get(n)) for cid in exc for k in [prog.fns.get(cid)] if k is not None
+                             for kk in [k] + prog.closures_of(k) for e in kk.calls() for n in prog.callee_nodes(e)
+                             if n in eff_all or is_eff(n, prog.fns.get(n))})
+    rep.ob("R14.1", "read-triggered-cold-open-persists-nothing|api::collection::open", not writes_in_task,
+           "the detached task a Read-labelled method starts to open a cold collection runs %s, which checkpoints recovery state "
+           "(collection metadata, ids bitmap, index objects, intent retirement) when the last stop was unclean or the cached handle was poisoned: "
+           "a read writes to storage" % ", ".join(writes_in_task[:4]), op.file + ":%d" % op.line)
     for (parse_path, enum_adt, disp_path) in ((SRV + "::api::DbMethod::parse", SRV + "::api::DbMethod", SRV + "::api::dispatch_db"),
                                               (SRV + "::api::RootMethod::parse", SRV + "::api::RootMethod", SRV + "::api::dispatch_root")):
         pf, table = parse_table(prog, parse_path, enum_adt)
@@ -149,7 +159,7 @@ def run(rep, tier):
     rep.ob("R14.1", "prologue-effect-free|dispatch_db", bool(gd) and not any(prog.event_in(e, eff) for e in gd), "resolving the database handle performs no write", df.file + ":%d" % df.line)
 
     # ------------------------------------------------------------------ R14.2
-    rep.rule("R14.2", "authorization dominates parsing, method resolution and dispatch (execute_rpc); require_auth continues only on non-POST / undecodable path / authorize Ok", floor=3)
+    rep.rule("R14.2", "authorization dominates parsing, method resolution and dispatch (execute_rpc); require_auth continues only on non-POST / authorize Ok", floor=3)
     ex = prog.fn(SRV + "::api::execute_rpc")
     rep.saw(ex, len(ex.events))
     au = ex.calls_named(r"AppState::authorize$")
@@ -183,11 +193,13 @@ def run(rep, tier):
     bad_params = {m["Err"] for (sb, place, adt, m, els) in ra.variant_edges() if adt == "core::result::Result" and "Err" in m and "RawPathParams" in ra.locals[place.l]}
     ok = bool(runs) and bool(au) and bool(okau)
     for r in runs:
-        good = any(ra.dominates(t, r.block) for t in okau | nonpost | bad_params)
+        # the undecodable-path edge is no exception: a name that is not UTF-8 is answered by the handler's Path extractor with a
+        # 400 that differs from the uniform rejection, so a caller who was never authorized learns something
+        good = any(ra.dominates(t, r.block) for t in okau | nonpost)
         ok = ok and good
     ok = ok and not any(ra.reachable_from([t]) & {r.block for r in runs} for t in errau)
     rep.ob("R14.2", "continue-only-when-authorized|require_auth", ok,
-           "every next.run lies on the non-POST edge, the undecodable-path edge or the Ok edge of authorize; the Err edge reaches none (%d continuation sites)" % len(runs), ra.file + ":%d" % ra.line)
+           "every next.run lies on the non-POST edge or the Ok edge of authorize (the undecodable-path edge included: a non-UTF-8 database name must get the uniform rejection, not the Path extractor's 400); the Err edge reaches none (%d continuation sites)" % len(runs), ra.file + ":%d" % ra.line)
     sc = ra.calls_named(r"api::scope_from_params$")
     rep.ob("R14.2", "scope-from-route|require_auth", bool(sc) and bool(au) and any(("call", s) in [(o[0], o[1]) for a in au[0].args for o in ra.slice_back_op(a)] for s in sc),
            "the scope authorised by the layer is derived from the matched route parameters", ra.file + ":%d" % ra.line)
